@@ -72,6 +72,8 @@ type t1 struct {
 	m   *Machine
 	tid types.Type // PSITableID
 	qf  *types.Var // field PSISectionHeader.TableID
+	// allowDef: the traced function may define the quantified variable once, unconditionally, before reading it
+	allowDef bool
 }
 
 func (t *t1) pos(n ast.Node) string {
@@ -141,7 +143,7 @@ func (t *t1) traceAll(key string, q *types.Var, visit func(id int, nodes []ast.N
 		t.r.Unknown(ruleT1, "anchor/"+key+"/table-id", t.pos(fd), "cannot locate the table id variable of "+key)
 		return false
 	}
-	if err := checkQuantUse(t.p, q, fd); err != nil {
+	if err := checkQuantUseDef(t.p, q, fd, t.allowDef); err != nil {
 		t.r.Unknown(ruleT1, "traceable/"+key, t.pos(fd), err.Error())
 		return false
 	}
